@@ -31,12 +31,12 @@ def chk(fn, props, nr, ns, tier, timeout, vmax=2):
 GROUPS = [
     chk("opttest", ["C01"], 1, 1, "quick", 900, vmax=1),
     chk("inftest", ["C02"], 1, 1, "quick", 900, vmax=1),
-    chk("opttest", ["C01"], 1, 1, "thorough", 1500),
+    chk("opttest", ["C01"], 1, 1, "thorough", 3000),
     chk("inftest", ["C02"], 1, 1, "thorough", 1500),
-    chk("inftest", ["C02"], 1, 2, "thorough", 2400),
-    chk("opttest", ["C01"], 1, 2, "thorough", 2400, vmax=1),
-    chk("opttest", ["C01"], 2, 1, "thorough", 2400, vmax=1),
-    chk("inftest", ["C02"], 2, 1, "thorough", 2400, vmax=1),
+    chk("inftest", ["C02"], 1, 2, "thorough", 4000),
+    chk("opttest", ["C01"], 1, 2, "thorough", 7200, vmax=1),
+    chk("opttest", ["C01"], 2, 1, "thorough", 7200, vmax=1),
+    chk("inftest", ["C02"], 2, 1, "thorough", 4000, vmax=1),
     Group("exact/gating", "exact_gating.c", tus=["exact.c"], model=MODEL, dfcc=False, std_checks=False, slice=True,
           remove_bodies=["QSexact_optimal_test", "QSexact_infeasible_test", "optimal_output", "infeasible_output",
                          "QScopy_prob_mpq_dbl", "QScopy_prob_mpq_mpf"],
